@@ -10,7 +10,7 @@ Require Import TT.Spec.C05Spec TT.Spec.C05Known TT.Spec.C18Spec TT.Spec.C18Known
 Require Import TT.Model.C05Parse TT.Proofs.C05ParseProofs.
 Require Import TT.Proofs.TypeParseProofs TT.Proofs.RenderProofs TT.Proofs.C05Proofs TT.Proofs.C05Sweep TT.Proofs.C05Examples TT.Proofs.C18Proofs.
 Require Import TT.Proofs.C05PrefixProofs TT.Proofs.C05OracleProofs.
-Require TT.Model.C10Zod TT.Spec.C10Check.
+Require TT.Model.C10Zod TT.Spec.C10Check TT.Proofs.C10Depth.
 Require Import TT.Proofs.C05ZodProofs.
 Import ListNotations.
 Local Open Scope string_scope.
@@ -71,6 +71,17 @@ Theorem C18_subst_all_sites_under_link : zod_parse_link -> forall m t s md,
   exists text, emit_type s md m t = Some text /\
                observe (site_is_type s md) text = Some (expected s m t).
 Proof. exact sound_all_sites. Qed.
+
+(* ... with NO hypothesis about parsing (the link is C10LexEx.parse_build): all ten site x mode pairs,
+   for every table with targets among string / number / boolean, every type whose structure lies in C10's
+   domain (map keys String / numbers, names not taken; mapped names are plain identifiers) and nests
+   less than 31 levels. The absolute clause of C18_subst_full_statement, everywhere. *)
+Theorem C18_subst_all_sites : forall m t s md,
+  C10Zod.map_ok m = true -> dom_m m t = true -> C10Zod.dom (sem t) = true -> C10Depth.tsdepth (sem t) < 31 ->
+  kf_C05 s md m t = false ->
+  exists text, emit_type s md m t = Some text /\
+               observe (site_is_type s md) text = Some (expected s m t).
+Proof. exact sound_all_sites_proved. Qed.
 
 (* the absolute clause of the run-time oracle is exactly that statement *)
 Theorem C18_abs_oracle_exact : forall s md m t text, dom_m m t = true -> kf_C05 s md m t = false ->
@@ -152,6 +163,7 @@ Print Assumptions C18_render_subst.
 Print Assumptions C18_subst_plain.
 Print Assumptions C18_subst_ts_sites.
 Print Assumptions C18_subst_all_sites_under_link.
+Print Assumptions C18_subst_all_sites.
 Print Assumptions C18_abs_oracle_exact.
 Print Assumptions C18_sweep_depth1_partial.
 Print Assumptions C18_sweep_domain_depth1_partial.
